@@ -17,7 +17,7 @@ def written_tag_on(a, v):
 
 # ------------------------------------------------------------------ C03
 def gen_gate(tier, rng):
-    nums = [0, 1, 2]
+    nums = [0, 1, 2] + HV.nums(1)
     singles = [('set', [(f, p)]) for f in RG.FORMS for p in RG.all_partials(nums)]
     alts = list(singles)
     n = 1500 if tier == 'quick' else 30000
@@ -162,7 +162,7 @@ def eval_gate(triples, tier, rng):
 
 # ------------------------------------------------------------------ C14
 def gen_extreme(tier, rng):
-    nums = [0, 1, 2, 3]
+    nums = [0, 1, 2, 3] + HV.nums(3)
     n = 1500 if tier == 'quick' else 40000
     cases = []; lists = 0
     pool_tags = [(), (), (), (0,), ('a',), ('a', 1), ('rc', 2), ('beta',)]
